@@ -7,7 +7,7 @@ _ALL = [
 ]
 INDEX = {
     "all": _ALL,
-    "c16": _ALL + ["f16_elementwise", "f16_cast_chain", "dead_cast", "dead_transpose", "dead_reshape", "dead_swish", "dead_rsqrt", "dead_chain", "dead_fn_call"],
+    "c16": _ALL + ["f16_elementwise", "f16_cast_chain", "dead_cast", "dead_transpose", "dead_reshape", "dead_swish", "dead_rsqrt", "dead_chain", "dead_fn_call", "tmean_top", "tmean_with_fn"],
     "c16cat": [f"{k}@{pl}" for k in ("unreg", "switch3", "scan_reverse", "fori_dynamic", "dim_arith") for pl in ("top", "loop", "fn")] + ["dim_no_origin@fn", "dim_no_origin@nested_fn", "dim_no_origin_scatter@loop"] + [f"scan_fwd_rev@{pl}" for pl in ("top", "loop", "fn")] + ["fn_in_fori@top", "fn_in_scan@top", "fn_in_cond@top", "fn_in_while@top", "inst_top_then_body@top"],
     # history entries: [programs converted first ...] then the judged construct, in one interpreter
     "c16cat_seq": [["scan_fwd_shared@top", "scan_rev_shared@top"], ["scan_fwd_rev@top", "scan_reverse@top"], ["scan_fwd_shared@top", "scan_fwd_rev@fn"], ["switch2_shared@top", "switch3_shared@top"], ["fori_static_shared@top", "fori_dynamic_shared@top"]],
